@@ -96,8 +96,12 @@ def afterStopOK (m : MSt) (o : Obs) : Bool :=
   | none => true
   | some (_, n) => o.started.all (· < n) && (!m.broke || m.skippable.all (fun i => !o.started.contains i))
 
-/-- final clauses, evaluated when the script has released everything that could run. -/
+/-- final clauses.  They speak about a script that has released everything that could run; a script
+    that leaves a started item gated, or an error report waiting for a subscriber that the script
+    never lets receive (a shrunk or hand-written one), is not such a script: the queue is then
+    waiting for its environment, and the clauses say nothing about it. -/
 def finalOK (m : MSt) (o : Obs) : List String :=
+  if !(o.started.all fun i => m.released.any (·.1 == i)) || o.wrun != 0 || o.wsend != 0 || o.mon == "send" then [] else
   let mustRun := match m.stopAt with
     | none => o.returned.filter (fun i => !m.deqNil.contains i)
     | some (ret, _) => if m.broke then [] else ret.filter (fun i => !m.deqNil.contains i)
